@@ -111,7 +111,12 @@ func Main(args []string) {
 				c.Prog.maxSteps = 8*c.Prog.Cfg.MaxCall + 2000
 			} else if i%5 == 1 {
 				c.Stream = "directed"
-				c.Prog = Directed(cr)
+				// round-robin over the templates: every shard runs each of them (variants and schedule random)
+				c.Prog = DirectedTemplate(cr, i/5+int(o.Seed%NDirected))
+			} else if i%5 == 3 {
+				// the templates whose violation needs a particular interleaving get twice the share
+				c.Stream = "directed"
+				c.Prog = DirectedTemplate(cr, []int{2, 1, 6, 8, 0}[(i/5+int(o.Seed))%5])
 			} else {
 				c.Prog = Gen(cr, GenOpts{MaxTasks: 7, MaxActs: 28})
 			}
